@@ -20,7 +20,11 @@
 (* A register is identified by its NAME (the generated programs use one    *)
 (* size per name; sub-registers do not occur after normalisation).         *)
 (***************************************************************************)
-EXTENDS Cfg
+EXTENDS Cfg, TLC
+
+\* TLC evaluates a function constructor lazily and re-evaluates its body at EVERY application;
+\* Table(f) forces the function to an explicit table once (TLCEval), so lookups are lookups.
+Table(f) == TLCEval(f)
 
 SeqRange(s) == {s[i] : i \in DOMAIN s}
 
@@ -68,13 +72,13 @@ SavedRegs(cc) == VarNames(cc.saved)
 \* jump TID -> jump term
 JmpTable(P) ==
   LET refs == JmpRefs(P)
-  IN  [t \in {JmpAt(P, c).tid : c \in refs} |-> JmpAt(P, CHOOSE c \in refs : JmpAt(P, c).tid = t)]
+  IN  Table([t \in {JmpAt(P, c).tid : c \in refs} |-> JmpAt(P, CHOOSE c \in refs : JmpAt(P, c).tid = t)])
 \* extern TID -> extern symbol
-ExternTable(P) == [t \in ExternTids(P) |-> P.externs[CHOOSE i \in DOMAIN P.externs : P.externs[i].tid = t]]
+ExternTable(P) == Table([t \in ExternTids(P) |-> P.externs[CHOOSE i \in DOMAIN P.externs : P.externs[i].tid = t]])
 \* node -> set of outgoing edges
 OutTable(E) ==
   LET N == {e.src : e \in E} \cup {e.dst : e \in E}
-  IN  [n \in N |-> {e \in E : e.src = n}]
+  IN  Table([n \in N |-> {e \in E : e.src = n}])
 \* registers read by the register arguments / by the address expressions of the stack arguments
 RegArgVars(args) == UNION {IF args[i].k = "reg" THEN InputVars(args[i].e) ELSE {} : i \in DOMAIN args}
 StackArgAddrVars(args) == UNION {IF args[i].k = "stack" THEN InputVars(args[i].a) ELSE {} : i \in DOMAIN args}
